@@ -252,7 +252,7 @@ def claims(tier):
     nv = 5 if q else len(VALS)
     for shape in SHAPES:
         for vi in range(nv):
-            cl.append(Claim("program[%s,v=%s]" % (shape, round(VALS[vi], 3)), c17_program, params={"shape": shape, "vi": vi, "fewkeys": q}, group="c17_program", pre=[lambda pi, o1, o2, vel, ch, vi, ki, inr: 0 <= pi < len(POOL) and 1 <= o1 <= 8 and 1 <= o2 <= 8 and 1 <= vel <= 127 and 0 <= ch <= 15 and vi == P["vi"] and 0 <= ki < (6 if P.get("fewkeys") else 30) and 0 <= inr <= 127], timeout=1500 if q else 3200, per_path=90, bounds="shape %s, value %s, 3/4; 4 name pairs; " + ("6" if q else "all 30") + " keys; octaves 1..8, velocity 1..127, channel 0..15, instrument number 0..127 symbolic; with and without MIDI instrument" % (shape, round(VALS[vi], 3))))
+            cl.append(Claim("program[%s,v=%s]" % (shape, round(VALS[vi], 3)), c17_program, params={"shape": shape, "vi": vi, "fewkeys": q}, group="c17_program", pre=[lambda pi, o1, o2, vel, ch, vi, ki, inr: 0 <= pi < len(POOL) and 1 <= o1 <= 8 and 1 <= o2 <= 8 and 1 <= vel <= 127 and 0 <= ch <= 15 and vi == P["vi"] and 0 <= ki < (6 if P.get("fewkeys") else 30) and 0 <= inr <= 127], timeout=1500 if q else 3200, per_path=90, bounds="shape %s, value %s, 3/4; 4 name pairs; %s keys; octaves 1..8, velocity 1..127, channel 0..15, instrument number 0..127 symbolic; with and without MIDI instrument" % (shape, round(VALS[vi], 3), "6" if q else "all 30")))
     cl.append(Claim("tracks", c17_tracks, pre=[lambda ntr, o1, vel: 1 <= ntr <= 4 and 1 <= o1 <= 7 and 1 <= vel <= 127], timeout=1200, bounds="1..4 tracks; octave and velocity symbolic"))
     step = 125 if q else 63
     hi_all = 504 if q else 1001
